@@ -433,9 +433,17 @@ fn c20() -> Property {
                 cases_per_seed: 1,
                 note: "tuples, vectors, options, maps of plain Rust types: size calculator, both readers, value tree",
             },
+            Variant {
+                name: "message-through-the-engines-chunk-reader",
+                weight: 1,
+                make: || Box::pin(scen::c10::run_client()),
+                max_steps: 3_000_000,
+                cases_per_seed: 1,
+                note: "C10's scripted fragmenting sender against a real receiver: a message that arrives in one frame is decoded from a slice, the same message cut into 2-7 frames at seeded offsets is decoded by the io reader fed by the engine's multi-buffer reader (one buffer per frame, empty ones included); both must give the message that was sent",
+            },
         ],
-        quick_runs: 6 * 65 * 40,
-        thorough_runs: 6 * 65 * 4000,
+        quick_runs: 8 * 65 * 30,
+        thorough_runs: 8 * 65 * 3000,
         rule: "trailing variant: one run per (seed = generated value and trailing bytes, chunk size in {seeded, 1..64}); typed variant: one generated performative per run; distinct = distinct event-log hash",
         assumptions: vec![
             "the generated value encodings come from the harness's own encoder (including the wide, non-canonical forms); the crate's own encoder is exercised for what it decodes from them",
